@@ -326,8 +326,27 @@ func (m *Machine) builtin(fr *Frame, b *ssa.Builtin, args []Value, c *ssa.CallCo
 		return nil
 	case "Add": // unsafe.Add(ptr, len)
 		d, ok := args[1].(*term.T)
-		if !ok || !d.IsConst() {
-			unsupported("unsafe.Add with a symbolic length")
+		if !ok {
+			unsupported("unsafe.Add with a non-integer length")
+		}
+		if !d.IsConst() {
+			if d.S.W < 64 {
+				d = f.SExt(64, d)
+			}
+			switch p := args[0].(type) {
+			case *PtrV:
+				if p.IsNil() || p.Arena != nil {
+					unsupported("unsafe.Add on nil/arena pointer with symbolic length")
+				}
+				return &AddrV{Obj: p.Obj, Path: p.Path, Sym: d}
+			case *AddrV:
+				sym := d
+				if p.Sym != nil {
+					sym = f.Add(p.Sym, d)
+				}
+				return &AddrV{Obj: p.Obj, Path: p.Path, Off: p.Off, Nil: p.Nil, Sym: sym}
+			}
+			unsupported("unsafe.Add with a symbolic length on %T", args[0])
 		}
 		switch p := args[0].(type) {
 		case *PtrV:
@@ -479,6 +498,14 @@ func (m *Machine) model(fn *ssa.Function, args []Value, res ssa.Value) *modelRes
 			return &modelRes{v: &IfaceV{}}
 		}
 		return &modelRes{v: m.callAndRun(newFn, nil)}
+	case "verif.local/vrt.OffsetOf":
+		// byte offset of a sub-object inside an object, from two pointers into it
+		bp, ok1 := args[0].(*IfaceV).V.(*PtrV)
+		fp, ok2 := args[1].(*IfaceV).V.(*PtrV)
+		if !ok1 || !ok2 || bp.Obj != fp.Obj || bp.Obj == nil {
+			unsupported("vrt.OffsetOf needs two pointers into the same object")
+		}
+		return &modelRes{v: f.Sub(m.symOffsetOf(fp.Obj.T, fp.Path), m.symOffsetOf(bp.Obj.T, bp.Path))}
 	case "verif.local/vrt.Pace":
 		return &modelRes{}
 	case "verif.local/vrt.Cover":
